@@ -246,6 +246,11 @@ def showAddr (p : Pfx) : String :=
     s!"{a / 2 ^ 24 % 256}.{a / 2 ^ 16 % 256}.{a / 2 ^ 8 % 256}.{a % 256}"
   | .v6 =>
     let a := (p.bits <<< (128 - p.len)) % 2 ^ 128
+    -- IPv4-mapped addresses in the mixed notation of RFC 4291 §2.2 (3): `::ffff:198.51.100.0`
+    if a / 2 ^ 32 == 0xffff && 96 ≤ p.len then
+      let v := a % 2 ^ 32
+      s!"::ffff:{v / 2 ^ 24 % 256}.{v / 2 ^ 16 % 256}.{v / 2 ^ 8 % 256}.{v % 256}"
+    else
     let groups := (List.range 8).map fun i => a / 2 ^ (16 * (7 - i)) % 65536
     let kept := dropTrailingZeros groups
     if groups.length - kept.length ≥ 2 then
